@@ -149,6 +149,12 @@ _PRISTINE = {}
 _SIMPLE = (int, float, str, bool, type(None), tuple, frozenset)
 
 
+def _shallow(c):
+    """Shallow copy of a container that keeps its type (defaultdict, OrderedDict...)."""
+    import copy as _copy
+    return _copy.copy(c)
+
+
 def _snapshot_globals():
     for mname, mod in sorted(sys.modules.items()):
         if not (mname == "symmray" or mname.startswith("symmray.")):
@@ -172,7 +178,7 @@ def _snapshot_globals():
                 objs.append(v)
                 for ck, cv in list(vars(v).items()):
                     if isinstance(cv, (dict, list, set)) and not ck.startswith("__"):
-                        _PRISTINE[(mname, k, "cls", ck)] = ("attr-container", cv, type(cv)(cv))
+                        _PRISTINE[(mname, k, "cls", ck)] = ("attr-container", cv, _shallow(cv))
                     f = cv.__func__ if isinstance(cv, (staticmethod, classmethod)) else cv
                     if isinstance(f, property):
                         objs.extend(x for x in (f.fget, f.fset) if x is not None)
@@ -188,11 +194,11 @@ def _snapshot_globals():
                 for i, d in enumerate(f.__defaults__ or ()):
                     if isinstance(d, (dict, list, set)):
                         _PRISTINE[(mname, k, f.__qualname__, "default", i)] = (
-                            "attr-container", d, type(d)(d))
+                            "attr-container", d, _shallow(d))
                 for dk, d in (f.__kwdefaults__ or {}).items():
                     if isinstance(d, (dict, list, set)):
                         _PRISTINE[(mname, k, f.__qualname__, "kwdefault", dk)] = (
-                            "attr-container", d, type(d)(d))
+                            "attr-container", d, _shallow(d))
                 # (every function, also those without attributes at import: an
                 # attribute *added* later is history that must not survive)
                 _PRISTINE[(mname, k, f.__qualname__, "fdict")] = ("fdict", f, dict(f.__dict__))
@@ -206,7 +212,7 @@ def _snapshot_globals():
                             continue
                         if isinstance(cv, (dict, list, set)):
                             _PRISTINE[(mname, k, f.__qualname__, "cell", ci)] = (
-                                "attr-container", cv, type(cv)(cv))
+                                "attr-container", cv, _shallow(cv))
         _MODULE_NAMES[mname] = set(vars(mod))
         for k, v in list(vars(mod).items()):
             if isinstance(v, type) and getattr(v, "__module__", None) == mname:
